@@ -312,6 +312,9 @@ async def run_scenario(loop, sc, classes):
                 pass
         elif kind == "feed":
             tr.peer_send(bytes.fromhex(ev[1]))
+        elif kind == "feed_eof":
+            tr.peer_send(bytes.fromhex(ev[1]))
+            tr.peer_eof()
         elif kind == "timeout":
             pass                                  # the deadline chosen at send time has just passed
         elif kind == "cancel":
